@@ -875,8 +875,7 @@ def _spec_labels(case):
 
 
 def _loose(e, g):
-    """value strength, with bool results allowed to be presented as the equal number only
-    when they are equal as Python values of the same kind (no bool/number mixing is generated)."""
+    """value strength (int 3 == float 3.0; bool and number results are never mixed by the generated modes)."""
     return veq(e, g)
 
 
